@@ -160,7 +160,7 @@ let good_tbl : (string, bool) Hashtbl.t = Hashtbl.create 1024
 let good_memo (fen : string) p =
   match Hashtbl.find_opt good_tbl fen with
   | Some b -> b
-  | None -> let b = invs_b p in Hashtbl.replace good_tbl fen b; b
+  | None -> let b = invr_b p in Hashtbl.replace good_tbl fen b; b
 
 let handle (line : string) : string =
   let f = Array.of_list (String.split_on_char '\t' line) in
@@ -199,7 +199,7 @@ let handle (line : string) : string =
       (String.concat "" (List.map (fun (((pc, _), _), _) -> string_of_n pc) gs))
       (sorted_mvs (List.map (enc p) sl))
       (sorted_mvs (List.map (enc p) (List.filter (captures st) sl)))
-      (b01 (in_D p)) (b01 (in_check p)) (b01 (invs_b p))
+      (b01 (in_D p)) (b01 (in_check p)) (b01 (invr_b p))
   | "att" ->
     let p = parse_fen f.(1) in
     let mask = n_of_string f.(2) in
